@@ -20,6 +20,7 @@ func (ex *Exec) sprintf(th *Thread, caller *frame, format Value, args []Value) V
 		return opaqueStr
 	}
 	var sb strings.Builder
+	var pieces []Value
 	opaque := false
 	argi := 0
 	for i := 0; i < len(f); i++ {
@@ -48,11 +49,25 @@ func (ex *Exec) sprintf(th *Thread, caller *frame, format Value, args []Value) V
 		}
 		a := args[argi]
 		argi++
+		if tv, ok := ex.fmtIntTemplate(verb, spec, a); ok {
+			// symbolic integer under %d: keep the skeleton (template string)
+			pieces = append(pieces, sb.String(), tv)
+			sb.Reset()
+			continue
+		}
 		s, conc := ex.fmtArg(th, caller, verb, spec, a, 0)
 		if !conc {
 			opaque = true
 		}
 		sb.WriteString(s)
+	}
+	if !opaque && len(pieces) > 0 {
+		pieces = append(pieces, sb.String())
+		var acc Value = ""
+		for _, p := range pieces {
+			acc = ex.strBinopAdd(acc, p)
+		}
+		return acc
 	}
 	if argi < len(args) {
 		sb.WriteString("%!(EXTRA ...)")
